@@ -26,7 +26,9 @@ EXPLANATION = (
     "with a removal from the owner's next rank; (R4) every setOwner call "
     "site is classified (ownership moves only together with list "
     "membership); (R5) setRoot/_addFiber/setRankInfo rebuild all ranks from "
-    "the raw payload lists and deepcopy is the pickle round trip.")
+    "the raw payload lists and deepcopy is the pickle round trip.  R3 also "
+    "requires, for a drop paired with a single pop(), that every disjunct of "
+    "the drop condition knows the dropped sub-fiber to be childless.")
 RULE = ("one obligation per Rank.fibers write, per caller of Rank.append/"
         "pop/clearFibers, per _createDefault/_instantiateDefault call site, "
         "per payload-dropping write in a C02 mutator, per setOwner call site, "
